@@ -1222,6 +1222,80 @@ impl Gen<'_> {
         }
     }
 
+    /// An array of arrays built row by row, in place: rows start empty (a literal, or a copy of an
+    /// empty variable) or with one element and grow through the nested receiver `m[r].push(e)`
+    /// inside a loop body or a function, i.e. in frames that end before the rows are read.
+    fn matrix_idiom(&mut self, out: &mut Vec<Stmt>) {
+        self.budget -= 6;
+        let is_num = self.rng.chance(1, 2);
+        let elem = if is_num { Ty::Num } else { Ty::Str };
+        let m = self.fresh_name("mx");
+        out.push(Stmt::Make { name: m.clone(), init: Some(Expr::Arr(vec![])), decl: u32::MAX });
+        let empty = if self.rng.chance(1, 3) {
+            let e = self.fresh_name("em");
+            out.push(Stmt::Make { name: e.clone(), init: Some(Expr::Arr(vec![])), decl: u32::MAX });
+            self.declare(VarInfo { name: e.clone(), ty: Ty::arr(elem.clone()), frozen: false, fixed: false, lens: vec![] });
+            Some(e)
+        } else {
+            None
+        };
+        let rows = self.rng.range(1, 3);
+        let cols = self.rng.range(1, 9);
+        let r = self.fresh_name("i");
+        let c = self.fresh_name("i");
+        out.push(Stmt::Make { name: r.clone(), init: Some(num(0)), decl: u32::MAX });
+        self.declare(VarInfo { name: r.clone(), ty: Ty::Num, frozen: true, fixed: false, lens: vec![] });
+        let cell = |g: &mut Self| -> Expr {
+            match (is_num, g.rng.weighted(&[3, 2, 1])) {
+                (true, 0) => bin(BinOp::Add, bin(BinOp::Times, var(&r), num(10)), var(&c)),
+                (true, _) => g.num_lit(),
+                (false, 0) => bin(BinOp::Add, g.str_lit(), var(&c)),
+                (false, 1) => bin(BinOp::Add, plain("c"), bin(BinOp::Add, var(&r), plain("-"))),
+                (false, _) => g.str_lit(),
+            }
+        };
+        let row_init = match (&empty, self.rng.weighted(&[4, 2])) {
+            (Some(e), _) => var(e),
+            (None, 0) => Expr::Arr(vec![]),
+            (None, _) => Expr::Arr(vec![if is_num { self.num_lit() } else { self.str_lit() }]),
+        };
+        let target = Expr::Index(Box::new(var(&m)), Box::new(bin(BinOp::Minus, var(&r), num(1))));
+        let via_fn = self.rng.chance(1, 3);
+        let mut body: Vec<Stmt> = vec![
+            Stmt::Assign { name: r.clone(), value: bin(BinOp::Add, var(&r), num(1)), decl: u32::MAX },
+            Stmt::Expr(method(var(&m), "push", vec![row_init])),
+            Stmt::Make { name: c.clone(), init: Some(num(0)), decl: u32::MAX },
+        ];
+        let push_cell = Stmt::Expr(method(target, "push", vec![cell(self)]));
+        let inner: Vec<Stmt> = if via_fn {
+            let f = self.fresh_name("w");
+            body.push(Stmt::FuncDef(Box::new(FuncDef { name: f.clone(), params: vec![], param_decls: vec![], body: Block { stmts: vec![push_cell] }, id: u32::MAX })));
+            vec![Stmt::Expr(call(&f, vec![]))]
+        } else {
+            vec![push_cell]
+        };
+        let mut inner_body = vec![Stmt::Assign { name: c.clone(), value: bin(BinOp::Add, var(&c), num(1)), decl: u32::MAX }];
+        inner_body.extend(inner);
+        body.push(Stmt::Loop { cond: bin(BinOp::Lt, var(&c), num(cols)), body: Block { stmts: inner_body } });
+        out.push(Stmt::Loop { cond: bin(BinOp::Lt, var(&r), num(rows)), body: Block { stmts: body } });
+        self.declare(VarInfo { name: m.clone(), ty: Ty::arr(Ty::arr(elem.clone())), frozen: false, fixed: false, lens: vec![] });
+        // unrelated work that reuses what the frames above gave back, then the rows are read
+        let others = self.vars_of(&Ty::arr(elem.clone()));
+        if !others.is_empty() && self.rng.chance(1, 2) {
+            let t = self.fresh_name("q");
+            let src = self.rng.pick(&others).name.clone();
+            out.push(Stmt::Make { name: t.clone(), init: Some(var(&src)), decl: u32::MAX });
+            self.declare(VarInfo { name: t, ty: Ty::arr(elem), frozen: false, fixed: false, lens: vec![] });
+        } else {
+            let e = if is_num { self.num_expr(1) } else { self.str_expr(1) };
+            out.push(shout(e));
+        }
+        out.push(shout(var(&m)));
+        if let Some(e) = empty {
+            out.push(shout(var(&e)));
+        }
+    }
+
     /// Adds one statement; returns true if it ends the block (return / comot / next).
     fn statement(&mut self, out: &mut Vec<Stmt>, top: bool) -> bool {
         self.budget -= 1;
@@ -1231,6 +1305,10 @@ impl Gen<'_> {
         let p = self.profile;
         if self.rng.chance(1, if p == Profile::Dead { 12 } else { 60 }) && self.budget > 6 {
             self.may_write_idiom(out);
+            return false;
+        }
+        if !deep && self.budget > 8 && self.rng.chance(1, if matches!(p, Profile::Array | Profile::Mem) { 20 } else { 70 }) {
+            self.matrix_idiom(out);
             return false;
         }
         if p == Profile::Dead && self.rng.chance(1, 14) {
